@@ -46,6 +46,10 @@ Readings (weakest reasonable):
     Monotonic growth inside the chain is not demanded.
   * deleting a record that is absent / adding one that is present (IXFR), duplicates (AXFR),
     and records outside the zone: either (lenient continuation: ignore / idempotent).
+    With strict_delete=True (used for the RRset-grouped route only) a deletion of a record
+    that the zone does not hold and that this stream has not deleted before is invalid: such
+    a difference sequence was computed from other content than the client's version, i.e. it
+    is "based on a different" version.
   * an SOA that is inside the zone but not at the apex: invalid when it would become zone
     content (in an IXFR deletion part it is a deletion of an absent record).
   * an apex SOA different from the first one inside an AXFR(-style) body: invalid.
@@ -155,7 +159,7 @@ class _Invalid(Exception):
     pass
 
 
-def _run(pre, serial, qtype, udp, messages, ooz_counts):
+def _run(pre, serial, qtype, udp, messages, ooz_counts, strict_delete=False):
     """One deterministic lenient pass.  Returns (zone or None, reason, lenient_notes, consumed).
     ooz_counts: whether an out-of-zone record takes part in the 'second record' decision."""
     notes = []
@@ -167,6 +171,7 @@ def _run(pre, serial, qtype, udp, messages, ooz_counts):
         "zone": None,
         "done": False,
         "form": None,
+        "deleted": set(),    # records this stream has deleted so far
     }
 
     def add(rec, lenient_note):
@@ -272,8 +277,11 @@ def _run(pre, serial, qtype, udp, messages, ooz_counts):
         if st["phase"] == "del":
             rds = st["zone"].get((owner, rtype))
             if rds is None or rdata not in rds:
+                if strict_delete and (owner, rtype, rdata) not in st["deleted"]:
+                    raise _Invalid("delete-of-never-held")
                 notes.append("delete-of-absent")
                 return
+            st["deleted"].add((owner, rtype, rdata))
             del rds[rdata]
             if not rds:
                 del st["zone"][(owner, rtype)]
@@ -307,7 +315,7 @@ def _run(pre, serial, qtype, udp, messages, ooz_counts):
     return st["zone"], "valid:" + st["form"], notes, consumed
 
 
-def interpret(pre, serial, qtype, udp, messages) -> Verdict:
+def interpret(pre, serial, qtype, udp, messages, strict_delete=False) -> Verdict:
     """pre: zone dict (possibly empty); serial: the serial the client put into its IXFR
     query (None for AXFR); qtype: "AXFR" | "IXFR"; udp: bool; messages: list of message dicts."""
     if qtype == "AXFR" and udp:
@@ -316,7 +324,7 @@ def interpret(pre, serial, qtype, udp, messages) -> Verdict:
     seen = []
     has_ooz = any(not in_zone(r[0]) for m in messages for r in m["records"])
     for ooz_counts in ((False, True) if has_ooz else (False,)):
-        zone, reason, notes, consumed = _run(pre, serial, qtype, udp, messages, ooz_counts)
+        zone, reason, notes, consumed = _run(pre, serial, qtype, udp, messages, ooz_counts, strict_delete)
         if ooz_counts is False:
             v.reason = reason
             v.consumed = consumed
